@@ -15,6 +15,7 @@ from spverif.san.loopguard import LoopGuard, LoopBudgetExceeded
 from . import _cfdp as C
 from . import c08
 
+THOROUGH_SCALE = 8
 ID = "C10"
 LEVEL = "fault_enumeration"
 SHARDS = {"quick": 1, "thorough": 16}
@@ -443,7 +444,7 @@ def run(ctx):
     names = list(D)
     guard()
     # (a) random octets, every length 0..64, every decoder
-    per = 8 if ctx.quick else 400
+    per = 8 if ctx.quick else 1500
     i = 0
     for d in names:
         for n in range(65):
@@ -456,7 +457,7 @@ def run(ctx):
                 call(ctx, d, raw, "random")
     ctx.exhaustive.append(f"{len(names)} decoder entry points x every input length 0..64 (random content)")
     # (b) every truncation point of valid units; (c) substitutions; (d) length edits
-    reps = 6 if ctx.quick else 160
+    reps = 6 if ctx.quick else 480
     for fname in fam():
         for rep in range(reps):
             i += 1
